@@ -133,6 +133,8 @@ func dispatchEvents(p *Prog, fn *ssa.Function, D map[*ssa.Function]bool) []ssa.C
 
 func runC18(c *Ctx) {
 	p := c.P
+	// clauses this property shares with others (see DESIGN.md section 6a)
+	defer c.ImportRules("C09", "C09.1")
 	entry := serveHTTP(p)
 	D, direct := dispatchers(p)
 	reach := p.Reach(entry)
